@@ -27,6 +27,49 @@ var (
 	spinOnFire func(w *World, prop, oracle, detail string) // installed by the mode that runs bubbles
 )
 
+func stallLimit() time.Duration {
+	if s := os.Getenv("SIM_STALL_S"); s != "" {
+		if v, err := strconv.ParseFloat(s, 64); err == nil && v > 0 {
+			return time.Duration(v * float64(time.Second))
+		}
+	}
+	return 45 * time.Second
+}
+
+// mutexBlockedFrames names the library frames of goroutines that wait for a sync.Mutex / RWMutex.
+func mutexBlockedFrames() string {
+	buf := make([]byte, 1<<20)
+	buf = buf[:runtime.Stack(buf, true)]
+	var out []string
+	for _, g := range strings.Split(string(buf), "\n\n") {
+		lines := strings.Split(g, "\n")
+		if len(lines) == 0 || !(strings.Contains(lines[0], "[sync.Mutex") || strings.Contains(lines[0], "[sync.RWMutex")) {
+			continue
+		}
+		var fr []string
+		for _, l := range lines[1:] {
+			if strings.HasPrefix(l, "\t") || !strings.Contains(l, "lean-helix-go") {
+				continue
+			}
+			name := l
+			if i := strings.LastIndex(name, "("); i > 0 {
+				name = name[:i]
+			}
+			if i := strings.Index(name, "lean-helix-go/"); i >= 0 {
+				name = name[i+len("lean-helix-go/"):]
+			}
+			fr = append(fr, name)
+			if len(fr) == 3 {
+				break
+			}
+		}
+		if len(fr) > 0 {
+			out = append(out, strings.Join(fr, " < "))
+		}
+	}
+	return strings.Join(out, " | ")
+}
+
 func spinCPULimit() float64 {
 	if s := os.Getenv("SIM_SPIN_CPU_S"); s != "" {
 		if v, err := strconv.ParseFloat(s, 64); err == nil && v > 0 {
@@ -63,15 +106,41 @@ func startSpinWatchdog() {
 	go func() {
 		var lastWaits uint64
 		var cpuAtChange = cpuSeconds()
+		var wallAtChange = time.Now()
 		for {
 			time.Sleep(500 * time.Millisecond)
 			n := spinWaits.Load()
 			if n != lastWaits || !spinInWait.Load() {
 				lastWaits = n
 				cpuAtChange = cpuSeconds()
+				wallAtChange = time.Now()
 				continue
 			}
-			if cpuSeconds()-cpuAtChange < limit {
+			if burnt := cpuSeconds() - cpuAtChange; burnt < limit {
+				// no CPU burnt either: a goroutine of the library blocked on a mutex that is never released is not
+				// "durably blocked" for the bubble, so the quiescence wait never returns and nothing runs. After a
+				// long real-time silence the goroutine dump decides.
+				if time.Since(wallAtChange) > stallLimit() && burnt < 2 {
+					if where := mutexBlockedFrames(); where != "" {
+						// look again after a pause: the same wait, the same goroutines still waiting for the mutex
+						time.Sleep(5 * time.Second)
+						if spinWaits.Load() != n || !spinInWait.Load() || mutexBlockedFrames() != where {
+							wallAtChange = time.Now()
+							continue
+						}
+						w := spinWorld.Load()
+						if w == nil || spinOnFire == nil {
+							continue
+						}
+						prop, oracle := w.spinVerdict()
+						if oracle == "node-spins" {
+							oracle = "node-deadlocked"
+						}
+						spinOnFire(w, prop, oracle, "after the last event nothing ran any more: a goroutine of the library waits for a mutex that is never released ("+where+")")
+						os.Exit(0)
+					}
+					wallAtChange = time.Now() // nothing of the kind: keep waiting (the driver's own watchdog has the last word)
+				}
 				continue
 			}
 			w := spinWorld.Load()
